@@ -18,7 +18,7 @@ use serde_json::Value;
 
 #[derive(Debug, Clone, Serialize, Deserialize, PartialEq)]
 pub enum Kind {
-    /// 0 conv, 1 BEL, 2 hybrid
+    /// 0 conv, 1 BEL, 2 hybrid, 3 hybrid with a flat battery
     Loco(u8),
     /// unit kinds 0 conv / 1 BEL
     Consist(Vec<u8>),
@@ -151,7 +151,17 @@ fn loco_of(k: u8) -> Locomotive {
     match k {
         0 => Locomotive::default(),
         1 => Locomotive::default_battery_electric_loco(),
-        _ => Locomotive::default_hybrid_electric_loco(),
+        2 => Locomotive::default_hybrid_electric_loco(),
+        _ => {
+            // hybrid with a flat battery (at its minimum SOC): the feasible engine / battery split collapses to a point
+            // and the hybrid's controller takes its no-search branch
+            let mut h = Locomotive::default_hybrid_electric_loco();
+            if let Some(r) = h.reversible_energy_storage_mut() {
+                let m = r.min_soc;
+                r.state.soc = m;
+            }
+            h
+        }
     }
 }
 
@@ -373,13 +383,15 @@ pub fn cases(tier: Tier) -> Vec<Case> {
     } else {
         lens.push(50);
     }
-    let mut kinds: Vec<Kind> = vec![Kind::Loco(0), Kind::Loco(1), Kind::Loco(2)];
+    let mut kinds: Vec<Kind> = vec![Kind::Loco(0), Kind::Loco(1), Kind::Loco(2), Kind::Loco(3)];
     for n in 1..=3usize {
         for mask in 0..(1u32 << n) {
             kinds.push(Kind::Consist((0..n).map(|k| ((mask >> k) & 1) as u8).collect()));
         }
     }
     kinds.push(Kind::Consist(vec![0, 2]));
+    kinds.push(Kind::Consist(vec![0, 3]));
+    kinds.push(Kind::Consist(vec![3, 1, 2]));
     kinds.push(Kind::SetSpeed(0));
     kinds.push(Kind::SetSpeed(2));
     kinds.push(Kind::SetSpeed(3));
@@ -438,7 +450,7 @@ impl Prop for C19 {
         "C19"
     }
     fn rule(&self, tier: Tier) -> String {
-        format!("E-SHAPE on the real walk(): simulation kinds {{LocomotiveSimulation conv/BEL/hybrid, ConsistSimulation over all {{conv,BEL}}^n n<=3 (+ conv+hybrid), SetSpeedTrainSim with 3 consists, SpeedLimitTrainSim walk and walk_timed_path (also broken at entry 1 / 2 by a non-contiguous link)}} x save interval in {{None,1,2,3,7}} x every run length 0..{} (+ long runs) x every position of a failing step (demand no unit can meet / negative trace speed); E-SEQ: every sequence of {} actions from {{step ok, step failing, set_save_interval(None|1|2|3)}} on a LocomotiveSimulation and a ConsistSimulation, oracle after every action. The object tree is inspected generically through its serialized form (every nested history, state.i and save_interval). distinct_nontrivial = distinct (kind, interval, ok/fail, action-shape) signatures.", if tier.is_thorough() { 16 } else { 12 }, if tier.is_thorough() { 6 } else { 5 })
+        format!("E-SHAPE on the real walk(): simulation kinds {{LocomotiveSimulation conv/BEL/hybrid/hybrid with a flat battery, ConsistSimulation over all {{conv,BEL}}^n n<=3 (+ conv+hybrid, conv+flat hybrid, flat hybrid+BEL+hybrid), SetSpeedTrainSim with 3 consists, SpeedLimitTrainSim walk and walk_timed_path (also broken at entry 1 / 2 by a non-contiguous link)}} x save interval in {{None,1,2,3,7}} x every run length 0..{} (+ long runs) x every position of a failing step (demand no unit can meet / negative trace speed); E-SEQ: every sequence of {} actions from {{step ok, step failing, set_save_interval(None|1|2|3)}} on a LocomotiveSimulation and a ConsistSimulation, oracle after every action. The object tree is inspected generically through its serialized form (every nested history, state.i and save_interval). distinct_nontrivial = distinct (kind, interval, ok/fail, action-shape) signatures.", if tier.is_thorough() { 16 } else { 12 }, if tier.is_thorough() { 6 } else { 5 })
     }
     fn assumptions(&self) -> Vec<String> {
         vec![
